@@ -1,5 +1,7 @@
-import AnnetModel.Model.Tree
 import AnnetModel.Model.Offside
+import AnnetModel.Model.Tree
 import AnnetModel.Spec.Offside
 import AnnetModel.Lemmas.Offside
 import AnnetModel.Props.C05
+import AnnetModel.Glue.C05
+import AnnetModel.Glue.Common
